@@ -253,8 +253,15 @@ class Polyhedron(Shape3D):
         for i, face in enumerate(self.faces):
             new_faces[labels[i]].update(face)
 
+        old_state = (self._faces, self._equations, self._neighbors)
         self._faces = [np.asarray(list(f)) for f in new_faces]
-        self.sort_faces()
+        try:
+            self.sort_faces()
+        except Exception:
+            # A merged face may be nonconvex and cannot be sorted: leave the
+            # polyhedron as it was rather than with unordered vertex sets as faces.
+            self._faces, self._equations, self._neighbors = old_state
+            raise
 
     @property
     def neighbors(self):
